@@ -368,6 +368,17 @@ class item : public reference<T>, public identifier
 public:
 	item(T *ref = 0) : reference<T>(ref), identifier(sizeof(identifier) + sizeof(_post))
 	{ }
+	/* name may use the trailing space: copy by identifier operations, not bytewise */
+	item(const item &from) : reference<T>(from), identifier(sizeof(identifier) + sizeof(_post))
+	{
+		identifier::operator =(from);
+	}
+	inline item &operator =(const item &from)
+	{
+		reference<T>::operator =(from);
+		identifier::operator =(from);
+		return *this;
+	}
 	inline item &operator =(const identifier &id)
 	{
 		identifier::operator =(id);
